@@ -516,7 +516,7 @@ const (
 
 type Call struct {
 	Op      string `json:"op"`
-	Code    int    `json:"code,omitempty"`     // WriteHeader
+	Code    int    `json:"code,omitempty"`     // WriteHeader; for the deadline calls 1 = the zero time (clear the deadline)
 	Data    string `json:"data,omitempty"`     // Write/WriteString: the bytes; ReadFrom: the bytes the source yields
 	Fail    bool   `json:"fail,omitempty"`     // ReadFrom: after Data the source fails instead of reporting EOF
 	Chunk   int    `json:"chunk,omitempty"`    // ReadFrom: bytes per Read call of the source (0 = all at once)
@@ -535,6 +535,9 @@ func (c Call) String() string {
 			end = "error"
 		}
 		return fmt.Sprintf("ReadFrom(source yielding %q then %s)", c.Data, end)
+	}
+	if (c.Op == opRDeadline || c.Op == opWDeadline) && c.Code == 1 {
+		return c.Op + "(zero time)"
 	}
 	return c.Op + "()"
 }
@@ -757,6 +760,9 @@ func runSeq(fam *family, c *Case) (res *runResult, err error) {
 			case opRDeadline, opWDeadline:
 				res.ft.capCall = true
 				when := time.Unix(1700000000+int64(i), 0)
+				if call.Code == 1 {
+					when = time.Time{} // the zero time clears a deadline set earlier: it is an argument like any other
+				}
 				var err error
 				name := "rdeadline"
 				if call.Op == opRDeadline {
@@ -987,6 +993,9 @@ func genCase(t *rapid.T) *Case {
 			call = Call{Op: opFlush}
 		default:
 			call = Call{Op: gen.Pick(t, []string{opPush, opRDeadline, opWDeadline, opDuplex}, "cap")}
+			if (call.Op == opRDeadline || call.Op == opWDeadline) && gen.Chance(t, 1, 2, "zerotime") {
+				call.Code = 1
+			}
 		}
 		off += len(call.Data)
 		c.Calls = append(c.Calls, call)
@@ -1037,7 +1046,7 @@ func reducedAlphabet() []Call {
 }
 
 func capAlphabet() []Call {
-	return []Call{{Op: opPush}, {Op: opRDeadline}, {Op: opWDeadline}, {Op: opDuplex}, {Op: opFlush}, {Op: opHijack},
+	return []Call{{Op: opPush}, {Op: opRDeadline}, {Op: opWDeadline}, {Op: opRDeadline, Code: 1}, {Op: opWDeadline, Code: 1}, {Op: opDuplex}, {Op: opFlush}, {Op: opHijack},
 		{Op: opHeader, Code: 404}, {Op: opWrite, Data: "ab"}}
 }
 
